@@ -512,6 +512,16 @@ def instantiate(terms, rounds=5, templates=None):
                     done_other.add(kk)
                     i = nt.args[1]
                     new.append(Implies(And(Le(I(0), i), Lt(i, Len(base))), Contains(base, Unit(nt))))
+        # an element of a sorted list is an element of the list that was sorted (at a position named after the term)
+        for t in list(allsub.values()):
+            if t.op == "seq.nth" and t.args[0].op == "sorted_int":
+                kk = ("sorted-perm", str(t))
+                if kk in done_other:
+                    continue
+                done_other.add(kk)
+                x = t.args[0].args[0]
+                pk = Const("sorted_from!%s" % hashlib.sha1(str(t).encode()).hexdigest()[:10], INT)
+                new.append(Implies(And(Le(I(0), t.args[1]), Lt(t.args[1], Len(t.args[0]))), And(Le(I(0), pk), Lt(pk, Len(x)), Eq(t, Nth(x, pk)))))
         def nth_rules(nth_terms):
             new = []
             # a sequence constant defined by a top-level equation (c == concatenation / spec function): its elements are the
@@ -604,6 +614,11 @@ def instantiate(terms, rounds=5, templates=None):
                 if k not in done_other:
                     done_other.add(k)
                     new.append(Eq(Len(t), Len(x)))
+                    if x.op == "seq.extract" and x.args[0].op == t.op:
+                        # reversing a slice of a reversed list gives a slice of the list:  rev(rev(y)[a:a+m]) == y[len-a-m : len-a]
+                        y = x.args[0].args[0]
+                        a, m = x.args[1], x.args[2]
+                        new.append(Implies(And(Le(I(0), a), Le(I(0), m), Le(Add(a, m), Len(y))), Eq(t, Extract(y, Sub(Sub(Len(y), a), m), m))))
                 for ks, it in list(idx_terms.get(k, {}).items())[:8]:
                     kk = ("rev", k, ks)
                     if kk in done_other:
